@@ -269,6 +269,57 @@ theorem C09_lubL_extends_left : ∀ cs : List STree, STree.wfL cs = true → ∀
             C09_lubL_extends_left cs hw.2 ds hwd.2 xs h2]
 end
 
+mutual
+/-- **idempotence**: broadcasting a shape with itself gives the shape back -/
+theorem C09_lub_idem : ∀ a : STree, a.wf = true → a.fitsT = true → a.lub a = some a
+  | .leaf, _, _ => rfl
+  | .node i cs, ha, hf => by
+      obtain ⟨hnl, hnone, hdict, hw⟩ := STree.wf_node ha
+      simp only [STree.fitsT, Bool.and_eq_true] at hf
+      have hL := C09_lubL_idem cs hw hf.2
+      simp only [STree.lub]
+      rcases Kind.cases_eq i.kind with hk | hk | hk | hk | hk | hk | hk | hk | hk | hk | hk
+      · obtain ⟨r, hr⟩ : ∃ r, i.custom = some r := by
+          have := hf.1
+          simp only [NInfo.fits, hk, Bool.and_eq_true] at this
+          exact Option.isSome_iff_exists.mp this.2
+        simp [hk, hr, hL]
+      · exact absurd hk hnl
+      · simp [hk]
+      · simp [hk, hL]
+      · simp [hk, hL]
+      · obtain ⟨hkl, hnd⟩ := hdict (by simp [hk, Kind.isDict])
+        have hks : keySetEq i.keys i.keys = true := (keySetEq_iff _ _).mpr ⟨rfl, fun _ h => h⟩
+        rw [show STree.lubD i.keys cs i.keys cs = some cs from by
+          rw [STree.lubD_eq i.keys cs hkl i.keys cs hkl (fun _ h => h), pickD_self i.keys cs hkl hnd]; exact hL]
+        simp [hk, Kind.isDict, hks]
+      · simp [hk, hL]
+      · obtain ⟨hkl, hnd⟩ := hdict (by simp [hk, Kind.isDict])
+        have hks : keySetEq i.keys i.keys = true := (keySetEq_iff _ _).mpr ⟨rfl, fun _ h => h⟩
+        rw [show STree.lubD i.keys cs i.keys cs = some cs from by
+          rw [STree.lubD_eq i.keys cs hkl i.keys cs hkl (fun _ h => h), pickD_self i.keys cs hkl hnd]; exact hL]
+        simp [hk, Kind.isDict, hks]
+      · obtain ⟨hkl, hnd⟩ := hdict (by simp [hk, Kind.isDict])
+        have hks : keySetEq i.keys i.keys = true := (keySetEq_iff _ _).mpr ⟨rfl, fun _ h => h⟩
+        rw [show STree.lubD i.keys cs i.keys cs = some cs from by
+          rw [STree.lubD_eq i.keys cs hkl i.keys cs hkl (fun _ h => h), pickD_self i.keys cs hkl hnd]; exact hL]
+        simp [hk, Kind.isDict, hks]
+      · simp [hk, hL]
+      · simp [hk, hL]
+theorem C09_lubL_idem : ∀ cs : List STree, STree.wfL cs = true → STree.fitsL cs = true →
+    STree.lubL cs cs = some cs
+  | [], _, _ => rfl
+  | c :: cs, hw, hf => by
+      simp only [STree.wfL, STree.fitsL, Bool.and_eq_true] at hw hf
+      simp [STree.lubL, C09_lub_idem c hw.1 hf.1, C09_lubL_idem cs hw.2 hf.2]
+end
+
+/-- hence `spec.broadcast_to_common_suffix(spec) == spec` -/
+theorem C09_broadcast_idem (a : STree) (ha : a.wf = true) (hfa : a.fitsT = true) (nil : Bool) (ns : String) :
+    broadcast (a.spec nil ns) (a.spec nil ns) = .ok (a.spec nil (mergeNs ns ns)) := by
+  rw [C09_broadcast_refines a a ha hfa ha hfa nil ns ns (by simp [nsCompatible])]
+  simp [bcastSpec, C09_lub_idem a ha hfa]
+
 /-- non-vacuity: `{"a": *, "b": (*, *)}` and `OrderedDict(b=*, a=[*])` merge to `{"a": [*], "b": (*, *)}` -/
 def C09_demoA : STree :=
   .node ⟨.dict, .keys [.str "a", .str "b"], Option.none, Option.none, some [.str "a", .str "b"]⟩
